@@ -503,35 +503,42 @@ def write_diffs():
     print("wrote %d diffs" % len(M))
 
 
-def run(names, all_props=False):
-    assert sh(["git", "-C", REPO, "status", "--porcelain", "--untracked-files=no"]).stdout.strip() == "", "/repo not clean"
+def run(names, all_props=False, nworkers=4):
+    """Each mutant is applied to a scratch worktree of /repo and checked by a
+    snapshot copy of /verif (tools/scratch.py); /repo itself is not touched."""
+    sys.path.insert(0, os.path.dirname(os.path.abspath(__file__)))
+    import scratch as scr
     results = {}
-    try:
-        for name in names:
-            props = M[name][0]
-            apply(name)
-            # must still compile
-            c = sh(["cargo", "check", "--offline", "--manifest-path", os.path.join(REPO, "Cargo.toml")])
-            if c.returncode != 0:
-                print("%-42s DOES NOT COMPILE\n%s" % (name, c.stdout[-1500:]))
-                revert()
+
+    def one(w, name, lock):
+        props, edits, _ = M[name]
+        for f, old, new in edits:
+            if not w.edit(f, old, new):
+                with lock:
+                    print("%-42s pattern not found in %s" % (name, f))
+                    results[name] = {"applies": False}
+                return
+        ok, out = w.compiles()
+        if not ok:
+            with lock:
+                print("%-42s DOES NOT COMPILE\n%s" % (name, out[-1500:]))
                 results[name] = {"compiles": False}
-                continue
-            row = {}
-            targets = props if not all_props else sorted(set(props) | set(ALL_PROPS))
-            for pid in targets:
-                t0 = time.time()
-                r = sh(["python3", os.path.join(ROOT, "check.py"), pid, "--tier", "quick"], cwd=ROOT,
-                       env=dict(os.environ, FCV_CASES_SCALE=os.environ.get("FCV_CASES_SCALE", "1")))
-                row[pid] = (r.returncode, round(time.time() - t0, 1))
-                if r.returncode not in (0, 1):
-                    print(r.stdout[-800:])
-            revert()
+            return
+        row = {}
+        targets = props if not all_props else sorted(set(props) | set(ALL_PROPS))
+        for pid in targets:
+            t0 = time.time()
+            rc, out = w.check(pid)
+            row[pid] = (rc, round(time.time() - t0, 1))
+            if rc not in (0, 1):
+                with lock:
+                    print(out[-800:])
+        with lock:
             results[name] = row
             print("%-42s %s" % (name, "  ".join("%s:%s(%ss)" % (p, {0: "MISSED", 1: "caught", 2: "INFRA"}.get(rc, rc), t) for p, (rc, t) in row.items())))
             sys.stdout.flush()
-    finally:
-        revert()
+
+    scr.pool_map(names, one, nworkers=nworkers)
     return results
 
 
@@ -547,5 +554,11 @@ if __name__ == "__main__":
     elif a[0] == "run":
         names = [x for x in a[1:] if not x.startswith("--")] or list(M)
         res = run(names, all_props="--all-props" in a)
-        with open(os.path.join(ROOT, "mutants", "last_run.json"), "w") as f:
-            json.dump(res, f, indent=1)
+        path = os.path.join(ROOT, "mutants", "last_run.json")
+        try:
+            allres = json.load(open(path))
+        except Exception:
+            allres = {}
+        allres.update(res)
+        with open(path, "w") as f:
+            json.dump(allres, f, indent=1, sort_keys=True)
